@@ -153,6 +153,7 @@ func runRestart(scratch string, s Snap) restartResult {
 		}
 	}
 	defer os.RemoveAll(home)
+	writeDecoys(home) // dastard is started from a directory that holds other files named config.*
 	base := freePortBlock(5)
 	cmd := exec.Command(bin)
 	cmd.Dir = home
